@@ -172,6 +172,32 @@ def run(chk):
             ne += 1
             chk.violation('exact', f'a pitch ({name},{o}) was transposed once, then set to ({name2},{o2}) through its setters: {n2} {d2} of that object gives {got}, '
                           f'of a fresh ({name2},{o2}) gives {want}', {'pitch': f'{name2}|{o2}', 'interval': n2, 'direction': d2, 'history': 'transpose-edit-argument-transpose'})
+    # results held by the caller: a melody transposed note by note into a list reads, after the loop, what each result
+    # read right after its own call (a later transposition must not show through an earlier result)
+    nk = 0
+    for _ in range(200 if not (chk.tier == 'thorough' or b.drift or not b.proof_ok or not b.modelrun_ok) else 2000):
+        r_ = chk.rng
+        n, d = r_.choice(names), r_.choice(['up', 'down'])
+        melody = []
+        for _k in range(r_.randint(3, 8)):
+            l, a, o = r_.randrange(7), r_.randint(-2, 2), r_.randint(0, 8)
+            melody.append(('CDEFGAB'[l] + ('+' * a if a >= 0 else '-' * (-a)), o))
+        chk.case(('held-results', tuple(melody), n, d), kind='held-results')
+        held = []
+        for name, o in melody:
+            try:
+                q = kp.AgnosticPitch.to_transposed(kp.AgnosticPitch(name, o), by_name[n], d)
+                held.append((name, o, q, (q.name, q.octave)))
+            except Exception:
+                pass
+        late = [(name, o, then, (q.name, q.octave)) for name, o, q, then in held]
+        bad_ = [x for x in late if x[2] != x[3]]
+        if (bad_ or len({id(q) for _, _, q, _ in held}) != len(held)) and nk < 10:
+            nk += 1
+            w_ = bad_[0] if bad_ else late[0]
+            chk.violation('exact', f'a melody {melody} transposed {n} {d} note by note: the result for ({w_[0]},{w_[1]}) read {w_[2]} right after its call and reads '
+                          f'{w_[3]} after the later calls (results share an object: {len({id(q) for _, _, q, _ in held}) != len(held)})',
+                          {'melody': melody, 'interval': n, 'direction': d, 'history': 'held-results'})
     chk.traces_validated = chk.evaluations
     chk.disagreements_checked = len(chk.broken)
 
